@@ -31,7 +31,7 @@ man = {
     },
     "engines": [
         {"name": "lean4-proof+correspondence", "path": "/verif/check", "serves_properties": [p["id"] for p in props],
-         "kind_free_text": "Lean 4 theorems over a hand-written executable model plus translated constants/tables/delegations (tools/extract.py -> lean/LSModel/Generated.lean) and the mechanically translated control flow of repr.rs (tools/rs2lean.py -> lean/LSModel/GenRepr.lean, proved equal to the hand model in lean/LSProofs/Gen/*.lean); model tied to /repo by differential scripts run on the real crate (harness/, shadow heap, String oracles) and on the compiled model driver (lean/Driver.lean)"},
+         "kind_free_text": "Lean 4 theorems over a hand-written executable model plus translated constants/tables/delegations (tools/extract.py -> lean/LSModel/Generated.lean) and the mechanically translated control flow of repr.rs (tools/rs2lean.py -> lean/LSModel/GenRepr.lean, proved equal to the hand model in lean/LSProofs/Gen/*.lean), every fn of every impl block of src/ compared with a registry (tools/surface.py); model tied to /repo by differential scripts run on the real crate (harness/, shadow heap, String oracles) and on the compiled model driver (lean/Driver.lean)"},
     ],
     "checks": checks,
     "not_applicable": [],
